@@ -621,7 +621,11 @@ impl<Backing : AsRef<[u32]> + AsMut<[u32]>> DrawTarget<Backing> {
     /// Pushes a new layer as the drawing target. This is used for implementing
     /// group opacity or blend effects.
     pub fn push_layer_with_blend(&mut self, opacity: f32, blend: BlendMode) {
-        let rect = self.clip_bounds();
+        // the layer only needs to cover the part of the clip that lies on the surface; the clip
+        // bounds can be larger than the surface, or inverted when disjoint rects were intersected
+        let rect = self.clip_bounds()
+            .intersection(&intrect(0, 0, self.width, self.height))
+            .unwrap_or(intrect(0, 0, 0, 0));
         self.layer_stack.push(Layer {
             rect,
             buf: vec![0; (rect.size().width * rect.size().height) as usize],
